@@ -116,6 +116,22 @@ Theorem C11_history_drivers_total : forall seq st t th have,
 Proof. exact history_drivers_total. Qed.
 Print Assumptions C11_history_drivers_total.
 
+(* _invalidate_cache (every rruleset mutator): mutators are not operations of the transition system; the
+   boundary is stated here.  With no operation in flight the invalidated state satisfies the invariant for
+   the NEW sequence (all theorems apply again); with a live iterator in its tail loop the next step raises
+   TypeError -- one face of the open finding F-C10-stale (C10, coq/rset/RSetHist.v has the other) *)
+Theorem C11_invalidate_without_live_iterators : forall seq seq' st,
+  Inv seq st -> forallb at_entry (thr st) = true -> Inv seq' (invalidate st).
+Proof. exact invalidate_without_live_iterators. Qed.
+Print Assumptions C11_invalidate_without_live_iterators.
+
+Theorem C11_invalidate_live_iterator_refuted :
+  (exists th, nth_error (thr (exec [1;2;3] true false (repeat 0%nat 26) (init [OList]))) 0 = Some th /\ t_pc th = PTWhile) /\
+  (exists th', nth_error (thr (exec [1;2;3] true false (repeat 0%nat 1) iv_state)) 0 = Some th' /\
+               t_res th' = Some (Raise ETypeError)).
+Proof. exact invalidate_live_iterator_refuted. Qed.
+Print Assumptions C11_invalidate_live_iterator_refuted.
+
 (* the code before bb46216 (`false`) deadlocks: two iterators over a 10-element rule *)
 Theorem C11_prefix_code_no_deadlock_refuted :
   let s := exec dl_seq false false dl_sched (init [OList; OList]) in
